@@ -39,6 +39,7 @@ func crcTable(poly uint32) *crc32.Table {
 			panic("crc32 table is not linear")
 		}
 	}
+	affSelfTest(t)
 	crcTabCache[poly] = t
 	return t
 }
@@ -62,12 +63,7 @@ func (in *Interp) crcStep(tab *crc32.Table, crc, b *Term) *Term {
 }
 
 func (in *Interp) crcUpdate(tab *crc32.Table, crc *Term, p []*Term) *Term {
-	ts := in.ts
-	crc = ts.BNot(crc)
-	for _, b := range p {
-		crc = in.crcStep(tab, crc, b)
-	}
-	res := ts.BNot(crc)
+	res := in.ts.crcAffUpdate(tab, crc, p)
 	if !res.IsConst() {
 		in.crcTerms[res] = true
 	}
